@@ -60,6 +60,10 @@ impl KeepSortedValidator {
         line: &'a str,
         regex: &regex::Regex,
     ) -> Option<(&'a str, RangeInclusive<usize>)> {
+        if line.trim().is_empty() {
+            // Blank lines never have a key, even when the pattern matches the empty string.
+            return None;
+        }
         if let Some(caps) = regex.captures(line) {
             if let Some(m) = caps.name("value") {
                 let range = m.range();
